@@ -1,25 +1,81 @@
 ---------------------------- MODULE Server ----------------------------
-(* The HTTP server as a protocol machine (crates/svgbob_server/src/main.rs): a long-lived       *)
-(* process, clients with one request in flight each, requests of the classes of ServerRef,      *)
-(* answered in any order.  The server keeps no state between requests, so every response is      *)
-(* the function of its own request; no request class has a transition that stops the server.     *)
+(* The HTTP server as a protocol machine, shaped like crates/svgbob_server/src/main.rs on axum /  *)
+(* hyper / tokio: a long-lived process; every connection goes through the stages of the          *)
+(* framework - parse the request head, route on (path, method), extract the body under the      *)
+(* default body limit, decode it as UTF-8, call the library, write the response - each of them   *)
+(* one action, so that requests of different clients interleave at every stage.  Conversions     *)
+(* occupy one of Workers runtime threads while they run (a slow diagram delays others, it does   *)
+(* not change their answers).  The handler keeps no state: the response of a request is a        *)
+(* function of that request; a failing stage answers with an error status and ends this          *)
+(* connection only; a panic inside the handler is caught per task by the runtime (modelled: the  *)
+(* connection is closed, the process lives on) - the library never panics by C01, so that action *)
+(* is enabled only under the constant LibMayPanic, which the checked configuration sets FALSE.    *)
+(*                                                                                                *)
+(* Requests are abstracted to the classes of ServerRef (what the drivers send): "get",            *)
+(* "post_ok", "post_badutf8", "post_oversize", "other_method", "other_path", "malformed".        *)
 EXTENDS ServerRef, TLC
 CONSTANTS Clients, MaxReq
-VARIABLES inflight, sent, log, alive
-vars == <<inflight, sent, log, alive>>
-Init == inflight = [c \in Clients |-> "none"] /\ sent = [c \in Clients |-> 0] /\ log = {} /\ alive = TRUE
-Send(c) == /\ alive /\ inflight[c] = "none" /\ sent[c] < MaxReq
-           /\ \E cl \in ReqClasses : inflight' = [inflight EXCEPT ![c] = cl]
-           /\ sent' = [sent EXCEPT ![c] = @ + 1] /\ UNCHANGED <<log, alive>>
-\* the handler: total on every class (a rejected request is answered with an error status, the process lives on)
-Handle(cl) == CHOOSE s \in AllowedStatus(cl) : s # 0
-Respond(c) == /\ alive /\ inflight[c] # "none"
-              /\ log' = log \cup { <<inflight[c], Handle(inflight[c])>> }
-              /\ inflight' = [inflight EXCEPT ![c] = "none"] /\ UNCHANGED <<sent, alive>>
-Next == \E c \in Clients : Send(c) \/ Respond(c)
-Spec == Init /\ [][Next]_vars /\ WF_vars(Next)
-ResponseIsFunctionOfRequest == \A e1, e2 \in log : e1[1] = e2[1] => e1[2] = e2[2]
+Workers == 2
+LibMayPanic == FALSE
+VARIABLES conn,      \* per client: the connection's stage and the request class it carries
+          sent,      \* per client: requests issued so far
+          busy,      \* number of runtime threads inside a conversion
+          log,       \* completed exchanges <<class, status>>
+          alive
+vars == <<conn, sent, busy, log, alive>>
+Idle == [stage |-> "idle", class |-> "none", status |-> 0]
+Init == conn = [c \in Clients |-> Idle] /\ sent = [c \in Clients |-> 0] /\ busy = 0 /\ log = {} /\ alive = TRUE
+
+\* a client writes a request (one in flight per client)
+Send(c) == /\ alive /\ conn[c].stage = "idle" /\ sent[c] < MaxReq
+           /\ \E cl \in ReqClasses : conn' = [conn EXCEPT ![c] = [stage |-> "received", class |-> cl, status |-> 0]]
+           /\ sent' = [sent EXCEPT ![c] = @ + 1] /\ UNCHANGED <<busy, log, alive>>
+Answer(c, st) == conn' = [conn EXCEPT ![c] = [@ EXCEPT !.stage = "answered", !.status = st]]
+\* hyper parses the request line and the headers: what is not HTTP is answered 400 or the connection is closed
+ParseHead(c) == /\ alive /\ conn[c].stage = "received"
+                /\ IF conn[c].class = "malformed" THEN \E st \in {400, 0} : Answer(c, st)
+                   ELSE conn' = [conn EXCEPT ![c].stage = "parsed"]
+                /\ UNCHANGED <<sent, busy, log, alive>>
+\* the router: only "/" is routed (404 otherwise), with GET and POST (405 otherwise)
+Route(c) == /\ alive /\ conn[c].stage = "parsed"
+            /\ CASE conn[c].class = "other_path" -> Answer(c, 404)
+                 [] conn[c].class = "other_method" -> Answer(c, 405)
+                 [] conn[c].class = "get" -> Answer(c, 200)                        \* hello(): name and version
+                 [] OTHER -> conn' = [conn EXCEPT ![c].stage = "routed"]
+            /\ UNCHANGED <<sent, busy, log, alive>>
+\* the Bytes extractor under the default body limit of 2 MiB
+Extract(c) == /\ alive /\ conn[c].stage = "routed"
+              /\ IF conn[c].class = "post_oversize" THEN Answer(c, 413) ELSE conn' = [conn EXCEPT ![c].stage = "extracted"]
+              /\ UNCHANGED <<sent, busy, log, alive>>
+\* text_to_svgbob: String::from_utf8, else 400
+Decode(c) == /\ alive /\ conn[c].stage = "extracted"
+             /\ IF conn[c].class = "post_badutf8" THEN Answer(c, 400) ELSE conn' = [conn EXCEPT ![c].stage = "decoded"]
+             /\ UNCHANGED <<sent, busy, log, alive>>
+\* svgbob::to_svg on a runtime thread: begins when a thread is free, ends by C01
+ConvertBegin(c) == /\ alive /\ conn[c].stage = "decoded" /\ busy < Workers
+                   /\ conn' = [conn EXCEPT ![c].stage = "converting"] /\ busy' = busy + 1
+                   /\ UNCHANGED <<sent, log, alive>>
+ConvertEnd(c) == /\ alive /\ conn[c].stage = "converting"
+                 /\ Answer(c, 200) /\ busy' = busy - 1 /\ UNCHANGED <<sent, log, alive>>
+\* a panic of the handler: the task is dropped, the connection closed without a response
+ConvertPanic(c) == /\ LibMayPanic /\ alive /\ conn[c].stage = "converting"
+                   /\ Answer(c, 0) /\ busy' = busy - 1 /\ UNCHANGED <<sent, log, alive>>
+\* the response is written (or the connection closed) and the exchange is complete
+Respond(c) == /\ alive /\ conn[c].stage = "answered"
+              /\ log' = log \cup { <<conn[c].class, conn[c].status>> }
+              /\ conn' = [conn EXCEPT ![c] = Idle] /\ UNCHANGED <<sent, busy, alive>>
+Step(c) == Send(c) \/ ParseHead(c) \/ Route(c) \/ Extract(c) \/ Decode(c) \/ ConvertBegin(c) \/ ConvertEnd(c)
+           \/ ConvertPanic(c) \/ Respond(c)
+Next == \E c \in Clients : Step(c)
+Spec == Init /\ [][Next]_vars /\ \A c \in Clients : WF_vars(Step(c))
+
+TypeOK == /\ busy \in 0..Workers /\ alive \in BOOLEAN
+          /\ \A c \in Clients : conn[c].stage \in {"idle", "received", "parsed", "routed", "extracted", "decoded",
+                                                   "converting", "answered"}
+ResponseIsFunctionOfRequest == \A e1, e2 \in log : (e1[1] = e2[1] /\ e1[1] # "malformed") => e1[2] = e2[2]
 ResponsesAllowed == \A e \in log : e[2] \in AllowedStatus(e[1])
 ServerAlive == alive
-AllAnswered == <>(\A c \in Clients : sent[c] = MaxReq /\ inflight[c] = "none")
+\* threads inside a conversion are exactly the connections in that stage
+BusyCounts == busy = Cardinality({ c \in Clients : conn[c].stage = "converting" })
+AllAnswered == <>(\A c \in Clients : sent[c] = MaxReq /\ conn[c].stage = "idle")
 =============================================================================
